@@ -26,6 +26,8 @@ type FlowGraph struct {
 	links  map[types.Object]boolLink // flag := x == nil / x != nil (both assigned once)
 	// scenario oracle of the running query (PathQuery.Atom): the value of an atomic condition, '1', '0' or '?'
 	atom func(e ast.Expr) byte
+	// the facts the running search carries at the point where atom is being asked
+	curFacts map[identFact]bool
 }
 
 type boolLink struct {
@@ -655,6 +657,7 @@ func (fg *FlowGraph) Reach(q PathQuery) (bool, []ast.Node) {
 	walk = func(b *cfg.Block, start int, facts map[identFact]bool) bool {
 		for i := start; i < len(b.Nodes); i++ {
 			l := Loc{b, i, b.Nodes[i]}
+			fg.curFacts = facts
 			if q.Visit != nil {
 				q.Visit(l, facts)
 			}
@@ -667,7 +670,9 @@ func (fg *FlowGraph) Reach(q PathQuery) (bool, []ast.Node) {
 			}
 			if q.Correlate {
 				facts = fg.killed(b.Nodes[i], facts)
+				fg.curFacts = facts
 				facts = fg.generated(b.Nodes[i], facts)
+				fg.curFacts = facts
 				if q.Gen != nil {
 					facts = q.Gen(b.Nodes[i], facts)
 				}
@@ -678,6 +683,7 @@ func (fg *FlowGraph) Reach(q PathQuery) (bool, []ast.Node) {
 				continue
 			}
 			nf := facts
+			fg.curFacts = facts
 			if q.Correlate && len(b.Succs) == 2 {
 				// the whole condition evaluated under what is known (Kleene logic): a condition known
 				// true has no false edge and vice versa
